@@ -57,7 +57,7 @@ ASSUMPTIONS = ["float64 fields only (int/float32 dtypes change the VTK array typ
                "theorems are about exact rational arithmetic; the text writer's rounding is a parameter `rnd`",
                "on a shared face VTK reports the lower cell and the mesh the upper one; the property is read as 'a cell containing p'"]
 UNPROVED = ["VTK writers/readers are modelled as the identity (bin, xml) or value-wise rounding (txt) on the grid view: observed, not proved",
-            "scalar_label_lost / field_label_lost are proved NEGATIVE results (findings D31, D32)"]
+            "scalar_label_lost / field_label_lost are proved NEGATIVE results (findings D61, D62)"]
 BUDGET = {"quick": 90, "thorough": 900}
 
 NAMES = ["x", "y", "z", "a", "b", "c", "u", "v", "w", "t"]
@@ -154,14 +154,14 @@ def cases(rng, tier):
                                                reps=list(REPS), nsub=rng.choice([1, 2])))
     for k in range(750 if quick else 9000):
         yield gen_field(rng, ("exact", "exact", "tol")[k % 3])
-    # the label classes of findings D31 / D32 (kept small and deterministic)
+    # the label classes of findings D61 / D62 (kept small and deterministic)
     for k in range(2 if quick else 6):
         yield gen_field(rng, "exact", dict(nvdim=1, vdims=[rng.choice(["s", "rho", "mz"])], nsub=0))
         nv = rng.choice([2, 3, 4])
         lab = ["field"] + rng.sample(["a", "b", "c"], nv - 1)
         rng.shuffle(lab)
         yield gen_field(rng, "exact", dict(nvdim=nv, vdims=lab, nsub=0))
-    # text files of fields with subregions on geometry that ten digits cannot hold (finding D33)
+    # text files of fields with subregions on geometry that ten digits cannot hold (finding D63)
     for k in range(2 if quick else 8):
         c = gen_field(rng, "tol", dict(reps=["txt"], nsub=1))
         c["save"] = True
@@ -372,7 +372,7 @@ def lookup_oracle(f, g, pts, fail, exact):
         if f.nvdim > 1 and f.vdims is not None:
             for c, lab in enumerate(f.vdims):
                 if lab == "field":
-                    continue  # D31: overwritten by the vector array
+                    continue  # D61: overwritten by the vector array
                 if lab not in arrays or float(arrays[lab][cid]) != float(want[c]):
                     fail(f"VTK cell {cid} found at {p}: scalar '{lab}' is {arrays.get(lab, [None] * (cid + 1))[cid]}, component {c} of f(p) is {want[c]}")
                     break
@@ -992,11 +992,11 @@ def known(case, text):
     if case["kind"] == "field":
         vd = case.get("vdims")
         if "labels" in text and case["nvdim"] == 1 and vd:
-            return "D32"
+            return "D62"
         if vd and "field" in vd and case["nvdim"] > 1 and ("labels" in text):
-            return "D31"
+            return "D61"
         if "[txt-rounded-geometry+subregions]" in text:
-            return "D33"
+            return "D63"
     return None
 
 
